@@ -13,28 +13,6 @@ set_option linter.unusedVariables false
 
 /-! ### what the lexer emits -/
 
-/-- the three states of `basic_tokenize` -/
-inductive LexSt where
-  | tpl | var | tag
-  deriving Repr, DecidableEq
-
-/-- The shape of a token stream after the whitespace filter: in `Template` state only Content /
-VariableStart / TagStart come out, inside `{{ }}` / `{% %}` none of these and the matching end
-token leads back to `Template`; a lexer error ends the stream (lexer.rs `errored`).  This is what
-`Tera.C06.template_state_tokens` and `filter_removes_raw_and_comment` establish for the lexer
-model, transported to the parser's token type. -/
-def shaped : LexSt → List Tok → Bool
-  | _, [] => true
-  | st, t :: rest =>
-    match t with
-    | .error => rest.isEmpty
-    | .content _ => st == .tpl && shaped .tpl rest
-    | .variableStart _ => st == .tpl && shaped .var rest
-    | .tagStart _ => st == .tpl && shaped .tag rest
-    | .variableEnd _ => st == .var && shaped .tpl rest
-    | .tagEnd _ => st == .tag && shaped .tpl rest
-    | _ => st != .tpl && shaped st rest
-
 /-- some state in which the list is shaped: what every suffix of a shaped list satisfies -/
 def Sh (l : List Tok) : Prop := ∃ st, shaped st l = true
 
@@ -156,6 +134,12 @@ theorem TGN.bind_tgn_g {α β} {n : Nat} {x : T α} {f : α → T β} (hx : TGN 
 theorem TG.lift {α} {b : Bool} {x : P α} (h : G b x) : TG b (lift x) := by
   intro s _
   have := h s.p
+  unfold TParser.lift
+  cases hr : x s.p <;> simp_all [okRes, okT]
+
+theorem TGN.lift {α} {n : Nat} {x : P α} (h : GN n x) : TGN n (TParser.lift x) := by
+  intro s _ hn
+  have := h s.p hn
   unfold TParser.lift
   cases hr : x s.p <;> simp_all [okRes, okT]
 
@@ -422,6 +406,7 @@ macro_rules
         | with_reducible refine TG.withFuel (fun _ => ?_)
         | with_reducible refine TG.literalMap (by assumption) _ (fun _ => ?_)
         | (with_reducible refine TGN.bind_tgn_g ?_ (fun _ => ?_); focus (with_reducible apply_assumption))
+        | (with_reducible refine TGN.bind_tgn_g (TGN.lift ?_) (fun _ => ?_); focus (with_reducible apply_assumption))
         | with_reducible refine TG.bind_ff ?_ (fun _ => ?_)
         | dsimp only
         | split))
@@ -489,6 +474,128 @@ theorem TG.parseTag (isFirst : Bool) : TG true (parseTag C recU ex isFirst) := b
   refine TG.bind_tf (TG.lift G.nextOrError) (fun t => ?_)
   tgtac
 
+/-- the loop of `parse_until_inner`, from template state: the `unreachable!` at parser.rs:1700
+is not reached -/
+theorem untilLoop_ok (ec : EndCheck) : ∀ n nodes s, shaped .tpl s.p.toks = true →
+    s.p.toks.length < n → okT false s (untilLoop C recU ex ec n nodes s) := by
+  have hexpr := TG.expr Hex
+  have htag := TG.parseTag (C := C) Hex HU
+  intro n
+  induction n with
+  | zero => intro nodes s _ hn; omega
+  | succ n ih =>
+    intro nodes s hsh hn
+    obtain ⟨⟨ts, a, b⟩, c1, c2, c3, c4, c5⟩ := s
+    unfold TParser.untilLoop
+    cases ts with
+    | nil => simp [okT, Left.refl]
+    | cons tok rest =>
+      simp only [] at hsh hn ⊢
+      have hrest : Sh rest := shaped_tail hsh
+      have hcons : Left true rest (tok :: rest) := Left.cons tok rest
+      -- what a continuation from `rest` gives, seen from `tok :: rest`
+      have lift_res : ∀ {r : TRes (List Node)},
+          okT false ⟨⟨rest, a, b⟩, c1, c2, c3, c4, c5⟩ r →
+          okT false ⟨⟨tok :: rest, a, b⟩, c1, c2, c3, c4, c5⟩ r := by
+        intro r hr
+        cases r <;> simp_all [okT]
+        exact Left.trans (b3 := false) (by simp) hcons hr
+      unfold shaped at hsh
+      cases tok <;> simp only [Bool.and_eq_true, beq_iff_eq, bne_iff_ne, ne_eq, reduceCtorEq,
+        not_true_eq_false, false_and, Bool.false_eq_true, not_false_eq_true, true_and] at hsh
+      case error => simp [okT]
+      case content c =>
+        exact lift_res (ih _ _ hsh (by simpa using hn))
+      case variableStart w =>
+        apply lift_res
+        refine okT_bind (b1 := true) (b2 := false) (by simp) (hexpr 0 _ hrest) (fun e s1 h1 => ?_)
+        have hs1 : Sh s1.p.toks := hrest.suffix h1.1
+        have hve := after_variableEnd s1 hs1
+        simp only [tbind_def, T.bind_apply]
+        cases hr : TParser.lift expectVariableEnd s1 with
+        | ok u s2 =>
+          rw [hr] at hve
+          simp only []
+          have hlen : s2.p.toks.length < n := by
+            have e1 := hve.1.2 rfl
+            have e2 : s1.p.toks.length ≤ rest.length := h1.length_le
+            simp at hn
+            omega
+          have h3 := ih (nodes ++ [Node.expression e]) s2 hve.2 hlen
+          cases hr3 : untilLoop C recU ex ec n (nodes ++ [Node.expression e]) s2 with
+          | ok c s3 => rw [hr3] at h3; exact Left.trans (b3 := false) (by simp) hve.1 h3
+          | err => simp [okT]
+          | panic m => rw [hr3] at h3; simp [okT] at h3
+          | fuel => rw [hr3] at h3; simp [okT] at h3
+        | err => simp [okT]
+        | panic m => rw [hr] at hve; simp at hve
+        | fuel => rw [hr] at hve; simp at hve
+      case tagStart w =>
+        dsimp only
+        cases rest with
+        | nil => simp [okT]
+        | cons t rest' =>
+          by_cases hte : t = .error
+          · subst hte; simp [okT]
+          · split
+            all_goals first
+              | (exact trivial)
+              | skip
+            rename_i t' tail' hne heq
+            cases heq
+            split
+            · exact lift_res (by simp [okT, Left.refl])
+            · apply lift_res
+              refine okT_bind (b1 := true) (b2 := false) (by simp) (htag _ _ hrest) (fun node s1 h1 => ?_)
+              have hs1 : Sh s1.p.toks := hrest.suffix h1.1
+              have fin : ∀ nodes', okT false s1
+                  ((TParser.lift expectTagEnd >>= fun _ => untilLoop C recU ex ec n nodes') s1) := by
+                intro nodes'
+                have hte' := after_tagEnd s1 hs1
+                simp only [tbind_def, T.bind_apply]
+                cases hr : TParser.lift expectTagEnd s1 with
+                | ok u s2 =>
+                  rw [hr] at hte'
+                  simp only []
+                  have hlen : s2.p.toks.length < n := by
+                    have e1 := hte'.1.2 rfl
+                    have e2 : s1.p.toks.length ≤ (t :: rest').length := h1.length_le
+                    simp at hn e2
+                    omega
+                  have h3 := ih nodes' s2 hte'.2 hlen
+                  cases hr3 : untilLoop C recU ex ec n nodes' s2 with
+                  | ok c s3 => rw [hr3] at h3; exact Left.trans (b3 := false) (by simp) hte'.1 h3
+                  | err => simp [okT]
+                  | panic m => rw [hr3] at h3; simp [okT] at h3
+                  | fuel => rw [hr3] at h3; simp [okT] at h3
+                | err => simp [okT]
+                | panic m => rw [hr] at hte'; simp at hte'
+                | fuel => rw [hr] at hte'; simp at hte'
+              cases node <;> exact fin _
+
 end level
+
+theorem parseUntil_ok : ∀ r ec s, shaped .tpl s.p.toks = true → okT false s (parseUntil r ec s) := by
+  intro r
+  induction r with
+  | zero => intro ec s _; simp [parseUntil, T.err, okT]
+  | succ r ih =>
+    intro ec s hs
+    unfold parseUntil
+    simp only [tbind_def, T.bind_apply, TParser.lift, Parser.loopFuel]
+    exact untilLoop_ok (C := cfgOf) (fun il m => G.innerParseExpression (cfgOf il) r m) ih ec _ [] s hs
+      (by omega)
+
+/-- **Totality of the whole-template parser model** on lexer-shaped token streams. -/
+theorem parse_total (maxDepth : Nat) (toks : List Tok) (h : shaped .tpl toks = true) :
+    (∃ t s, parse maxDepth toks = .ok t s) ∨ parse maxDepth toks = .err := by
+  have := parseUntil_ok maxDepth .never ⟨⟨toks, 0, 0⟩, [], [], [], none, []⟩ h
+  unfold parse
+  simp only []
+  cases hr : parseUntil maxDepth .never ⟨⟨toks, 0, 0⟩, [], [], [], none, []⟩ with
+  | ok nodes s => exact Or.inl ⟨_, _, rfl⟩
+  | err => exact Or.inr rfl
+  | panic m => rw [hr] at this; simp [okT] at this
+  | fuel => rw [hr] at this; simp [okT] at this
 
 end Tera.TParser
